@@ -479,10 +479,12 @@ class C05(Check):
             hist = states[key]
             # dp over the lines of this parameter: cost = number of lines which skip a state
             INF = 10 ** 9
-            # the first line (the snapshot of the activation): the latest matching state held before the line arrived
+            # the first line (the snapshot of the activation): a matching state held before the line arrived (with equal
+            # states recurring and a slow network not necessarily the latest of them: the line may have been on its
+            # way while the cache went to an error and back)
             ln0, c0, seq0 = msgs[0]
             held = [i for i in c0 if hist[i][0] <= seq0]
-            first = [max(held)] if held else [c0[0]]
+            first = held if held else [c0[0]]
             table = [{i: (0, None) for i in first}]
             for ln, cands, _q in msgs[1:]:
                 prev = table[-1]
